@@ -50,7 +50,8 @@ def build_session(rng, tmp, kind, metric, ext, rep, tm):
     u = sorted(set(labels_all[I].tolist()))
     Ytr = np.array([u.index(v) for v in labels_all[I]])
     s.ctr += 1
-    path = os.path.join(tmp, "d%d_%d.%s" % (id(s) % 1000000, s.ctr, ext))
+    # the same path is written again and again (one per format): a stale view of the file (cached by name) must not survive
+    path = os.path.join(tmp, "distances.%s" % ext)
     s.call("pre_compute_distance", g.pre_compute_distance, Z, path, metric)
     cfg = {"distance": metric}
     if kind == "unsup":
